@@ -74,6 +74,19 @@ def monitorSign (prop : String) (res : Sign.Result) (isRemote : Bool) (keyMatche
   match res with
   | .ok c =>
     if !iok then return (if prop == "C08" then some "valid_request_rejected" else none)
+    if prop == "C13" then
+      -- the attributes of the request, seen through the returned bytes and through the signing object itself
+      if !keyMatchesLeaf then return none
+      for view in ["verified", "object"] do
+        match fldOpt impl view with
+        | some v =>
+          if (← fldBool v "ok") then
+            let got ← contentOfJson (← fld v "content")
+            match EnvMonitor.attrsRules c.extAttrs got.extAttrs with
+            | some x => return some (x ++ (if view == "object" then "_on_the_signing_object" else ""))
+            | none => pure ()
+        | none => pure ()
+      return none
     if prop != "C08" then return none
     -- a signer whose private key is not the key of its own leaf certificate is outside the valid requests
     if !keyMatchesLeaf then return none
